@@ -101,5 +101,22 @@ CHECKS = {
         note="Trusted: the closed form (N cancels; filled cells deviate by 0 from the mean); f^2 == g^2 => f == +-g. Range bound and affine invariance in floating point are declined.",
         technique="static analysis: (guard, addend) descriptors + rational normal-form identity against the statement's closed form, sibling comparison",
     ),
+    "C09": dict(
+        category=OTHER,
+        text="Window convention (every searchsorted lookup of get_calibration_indices: array, value and side, on both arms; the helper passes `side` through), recorded "
+             "attributes, ValueError validation dominating both kernel sites on the CFG of spi (reversed/empty, single step, out of range, label length), dense "
+             "re-labelling pipeline (to_linspace -> num_groups -> cal_indices -> site arguments) and the grouped gather / per-group window / scatter descriptor of gammastd_grp.",
+        note="Trusted: numpy searchsorted left/right semantics on a sorted axis; np.unique returns sorted distinct keys. Equality of grouped and per-group ungrouped "
+             "results (two runs) and datetime comparison semantics are declined.",
+        technique="static analysis: call-argument descriptors, CFG dominance of raising guards, integer-comparison normal forms",
+    ),
+    "C20": dict(
+        category=OTHER,
+        text="R-READONLY (no store into an input or a view of one; working arrays are copies), scatter descriptor (cursors), solver call (lambda = 1e-5 as an exact "
+             "constant, weights = untouched template copy), run-length averaging descriptor (sum/count/index roles identified from the store, reset together, final "
+             "flush, round half-even), division guard on the count (positive-counter lemma), accessor: int16 requirement, output length, declared dtype, binding.",
+        note="Trusted: Python round() is half-even; C01 for the solve and C14 for bounds. Exactness on constant/linear input is declined.",
+        technique="static analysis: store/def descriptors with guards from the structured walk, alias analysis for views/copies",
+    ),
 }
 NOT_APPLICABLE = {}
